@@ -144,6 +144,12 @@ func runC11(env *lib.Env, rep *lib.Report) {
 	refusing := alphaOpt{Tables: []string{"t1"}, Inserts: []int{1, 9}, Updates: true, FailingInsert: true}
 	cfgs = append(cfgs, histCfg{Name: "real/t1x8/refused-inserts", Opt: worldOpt{}, Seed: "t1x8", Alpha: refusing, Depth: d, TickChoice: true, Reopen: true, Crash: true, Walk: true, OnlyWalk: true},
 		histCfg{Name: "leaf3-int3/t1x30/refused-inserts", Opt: worldOpt{Leaf: 3, Internal: 3}, Seed: "t1x30", Alpha: refusing, Depth: d, TickChoice: true, Reopen: true, Crash: true, Walk: true, OnlyWalk: true})
+	// a database that has only seen DDL (its log is empty) whose next CREATE TABLE dies inside its flush - pages on
+	// disk, header not; whatever recovery makes of it, the trees that grow afterwards must not share a page
+	cfgs = append(cfgs, histCfg{Name: "real/empty/crash-in-create", Opt: worldOpt{}, Seed: "empty",
+		Alpha: alphaOpt{Tables: []string{"t1", "t2", "t3"}, Inserts: []int{1, 9}}, Depth: d, CrashInCreate: true, Walk: true, OnlyWalk: true},
+		histCfg{Name: "real/t1x8/crash-in-create", Opt: worldOpt{}, Seed: "t1x8",
+			Alpha: alphaOpt{Tables: []string{"t1", "t3"}, Inserts: []int{1, 9}}, Depth: d, TickChoice: true, CrashInCreate: true, Walk: true, OnlyWalk: true})
 	// a page cache of a few pages (flushed after every statement): which pages are resident while a leaf or an
 	// interior page splits is decided by the cache; the tree on disk must come out the same
 	for _, cc := range []int{6, 8} {
